@@ -190,15 +190,15 @@ Fixpoint get_node (n : node) (o : gobj) (self : ref) (depth : nat) (path : list 
   end.
 
 (* ---------- GetTo / Get ---------- *)
-(* x after the type switch of the header; an argument passed by value is copied (x = &v) *)
+(* x after the type switch of the header; an argument passed by value is copied (x = &v).
+   A nil pointer argument (typed-nil *T, **T to a nil *T, nil **T) leaves x nil and the header
+   returns (`if x == nil { return }`, fix: commit 1a38871): [GNilRoot] is not produced any more. *)
 Definition root_slot (a : arg) : option gslot + pkind :=
   match a with
   | AVal v => inl (Some (GS v [] true))
   | APtr (Some v) => inl (Some (GS v [] false))
-  | APtr None => inl (Some GNilRoot)
   | APtrPtr (Some (Some v)) => inl (Some (GS v [] false))
-  | APtrPtr (Some None) => inl (Some GNilRoot)
-  | APtrPtr None => inr PNilDeref
+  | APtr None | APtrPtr (Some None) | APtrPtr None => inl None
   | ANil | AForeign => inl None
   end.
 
